@@ -502,6 +502,11 @@ def ratio_direction(repo, res):
             continue
         n_aff += 1
         second = norm(val.elts[1])
+        # part of the offset computed by a branching in-package helper the summariser does not expand: undecidable here
+        # (analysis error, exit 2) - neither a pass nor a violation
+        opaque = [norm(c.func) for c in ast.walk(val.elts[1]) if isinstance(c, ast.Call) and isinstance(c.func, ast.Name) and c.func.id in fn.mod.funcs and c.func.id != "_split_prefix"]
+        if opaque:
+            raise AnalysisError(f"{fn.where()}: the offset term is computed through the helper {opaque[0]}(), which has more than one path; the rule cannot follow it")
         forms = {}
         for oname, u in (("old", old), ("new", new)):
             pfx_plain = x.has(f"_split_prefix(str({u}), {u}.registry.lut)[0] == ''", True)
